@@ -23,6 +23,7 @@
   it is the `_partial` variants exclude these names and `no_access_without_auth_fails_pinned` is the witness.
 -/
 import FerrousSpec.Proofs.Auth
+import FerrousSpec.Proofs.AuthConfig
 import FerrousSpec.Gen.Auth
 namespace Ferrous.C17
 open Ferrous Ferrous.Auth
@@ -306,8 +307,111 @@ theorem hash_cutting_grammar_truncates_password :
     Code.filePasswords true [REQUIREPASS ++ 32 :: nameBytes "Tr0ub4dor#3x"] = [nameBytes "Tr0ub4dor"] ∧
     Code.filePasswords false [REQUIREPASS ++ 32 :: nameBytes "Tr0ub4dor#3x"] = [nameBytes "Tr0ub4dor#3x"] := by decide
 
-/-- The tree's configuration-file grammar is the one modelled (`hashCuts = false`). -/
-theorem tree_config_line_grammar : Gen.configLineGrammar = "rest-of-line-trimmed" := by decide
+/-- The tree's configuration-file grammar is one of the two modelled ones: the pinned one (directive cut at the first blank, value
+    verbatim) or the repaired one (byte-order mark dropped, directive cut at the first white space of any kind; `requirepass` takes
+    exactly one argument in redis.conf syntax).  Anything else: the driver predicts nothing for file-configured servers. -/
+theorem tree_config_line_grammar :
+    (Gen.configLineGrammar = "rest-of-line-trimmed" ∨ Gen.configLineGrammar = "first-whitespace-bom") ∧
+    (Gen.requirepassValue = "verbatim" ∨ Gen.requirepassValue = "one-sdssplitargs-argument") := by decide
+
+/-! #### The prescribed grammar (`Grammar.spec`: Redis's reading of a redis.conf line) -/
+
+/-- `config_never_open`.  Under the prescribed grammar, for EVERY configuration text: if any of its lines reads as a `requirepass`
+    directive — after an optional byte-order mark and surrounding white space its first word, delimited by white space of any
+    kind, is `requirepass` in any letter case — then the server either does not start or runs WITH a password.  No such line, however
+    ill-formed (no value, several values, unbalanced quotes, a trailing remark, a TAB as separator, invalid UTF-8 …), and nothing
+    that follows it, yields a running open server. -/
+theorem config_never_open (pre : List Bytes) (l : Bytes) (post : List Bytes)
+    (h : looksLikeRequirepass pre.isEmpty l = true) :
+    Code.loadConfig Grammar.spec (pre ++ l :: post) ≠ .running none :=
+  loadFrom_never_open Grammar.spec rfl rfl post l pre true none (by simpa using h)
+
+/-- `config_password_is_the_unquoted_value`.  Every password can be written into the file, and what the server then runs with is
+    exactly that password: for every byte string `p` (valid UTF-8), the line `requirepass`, a blank or a TAB, and `p` between double
+    quotes with everything but printable ASCII escaped as `\xHH` yields the password `p` — the quotes and escapes are not part of it.
+    (`h1`, `h2`: the line and the quoted value carry no white space at their ends, as `str::trim` sees it.) -/
+theorem config_password_is_the_unquoted_value (p : Bytes) (hp : ∀ b ∈ p, b < 256) (hu : utf8Valid p = true)
+    (sep : Nat) (hsep : sep = 32 ∨ sep = 9) (first : Bool)
+    (h1 : trim (REQUIREPASS ++ sep :: quoteArg p) = REQUIREPASS ++ sep :: quoteArg p) (h2 : trim (quoteArg p) = quoteArg p) :
+    Code.parseLine Grammar.spec first (REQUIREPASS ++ sep :: quoteArg p) = .requirepass p := by
+  have hs : splitFirstWs (REQUIREPASS ++ sep :: quoteArg p) = some (REQUIREPASS, quoteArg p) := by
+    rcases hsep with rfl | rfl <;> simp [REQUIREPASS, splitFirstWs, wsLen]
+  have hb : (List.take 3 (REQUIREPASS ++ sep :: quoteArg p) == BOM) = false := by simp [REQUIREPASS, BOM]
+  have hl : lowerAscii REQUIREPASS = REQUIREPASS := by decide
+  unfold Code.parseLine Code.prepLine
+  simp only [Grammar.spec, hb, Bool.and_false, Bool.false_eq_true, if_false, h1]
+  rw [if_neg (by simp [REQUIREPASS])]
+  simp only [if_true, hs, hl, h2, splitArgs_quoteArg p hp, hu]
+
+/-- Non-vacuity on the hunter's values: the hypotheses hold and the whole file loads with exactly the password. -/
+example :
+    ∀ p ∈ [nameBytes "open sesame", nameBytes "s3cret", nameBytes "with \"quotes\" and \\", [195, 169, 9, 1], []],
+      trim (REQUIREPASS ++ 9 :: quoteArg p) = REQUIREPASS ++ 9 :: quoteArg p ∧ trim (quoteArg p) = quoteArg p ∧
+      Code.loadConfig Grammar.spec [nameBytes "# a comment", REQUIREPASS ++ 9 :: quoteArg p] = .running (some p) := by decide
+
+/-- The prescribed reading of the hunter's lines: TAB separator (with and without later blanks), byte-order mark, double and single
+    quotes, blanks inside quotes, escapes → the unquoted value; unbalanced quotes, a trailing remark, no value → no start. -/
+example :
+    Code.loadConfig Grammar.spec [nameBytes "requirepass\t\"open sesame\""] = .running (some (nameBytes "open sesame")) ∧
+    Code.loadConfig Grammar.spec [nameBytes "requirepass\tsecret"] = .running (some (nameBytes "secret")) ∧
+    Code.loadConfig Grammar.spec [BOM ++ nameBytes "requirepass open-sesame"] = .running (some (nameBytes "open-sesame")) ∧
+    Code.loadConfig Grammar.spec [nameBytes "requirepass \"s3cret\""] = .running (some (nameBytes "s3cret")) ∧
+    Code.loadConfig Grammar.spec [nameBytes "REQUIREPASS 's3cret'"] = .running (some (nameBytes "s3cret")) ∧
+    Code.loadConfig Grammar.spec [nameBytes "requirepass \"a\\x41\\n\\\"b\""] = .running (some [97, 65, 10, 34, 98]) ∧
+    Code.loadConfig Grammar.spec [nameBytes "requirepass \"unterminated"] = .startError ∧
+    Code.loadConfig Grammar.spec [nameBytes "requirepass pw # remark"] = .startError ∧
+    Code.loadConfig Grammar.spec [nameBytes "requirepass"] = .startError := by decide
+
+/-! #### The pinned grammar (`Grammar.pinned`, the tree before C17_2 / C17_3) -/
+
+/-- `config_never_open` FAILS for the pinned grammar (finding C17-config-directive-cut-at-blank): a `requirepass` line whose separator
+    is a TAB and that has a blank further right (inside the quoted password, before a remark), and a first line behind a byte-order
+    mark, are cut into an unknown directive, skipped with a warning — and the server runs OPEN.  The same TAB line without any blank
+    does not start: the asymmetry is the defect. -/
+theorem config_never_open_fails_pinned :
+    looksLikeRequirepass true (nameBytes "requirepass\t\"open sesame\"") = true ∧
+    Code.loadConfig Grammar.pinned [nameBytes "requirepass\t\"open sesame\""] = .running none ∧
+    looksLikeRequirepass true (BOM ++ nameBytes "requirepass open-sesame") = true ∧
+    Code.loadConfig Grammar.pinned [BOM ++ nameBytes "requirepass open-sesame"] = .running none ∧
+    Code.loadConfig Grammar.pinned [nameBytes "requirepass\tsecret # remark"] = .running none ∧
+    Code.loadConfig Grammar.pinned [nameBytes "requirepass\tsecret"] = .startError := by decide
+
+/-- … and it holds again with the two switches of C17_2 alone (directive cut at any white space, byte-order mark dropped), whatever
+    the third: for every configuration text, as above. -/
+theorem config_never_open_with_anyWs_bom (unquote : Bool) (pre : List Bytes) (l : Bytes) (post : List Bytes)
+    (h : looksLikeRequirepass pre.isEmpty l = true) :
+    Code.loadConfig ⟨true, true, unquote⟩ (pre ++ l :: post) ≠ .running none :=
+  loadFrom_never_open ⟨true, true, unquote⟩ rfl rfl post l pre true none (by simpa using h)
+
+/-- `config_password_is_the_unquoted_value` FAILS for the pinned grammar (finding C17-config-quotes-in-password): the quotes around the
+    value stay in the password, so the exact password `s3cret` is refused and the 8-byte string with the quotes authenticates. -/
+theorem config_quotes_stay_in_password_pinned :
+    Code.loadConfig Grammar.pinned [nameBytes "requirepass \"s3cret\""] = .running (some (nameBytes "\"s3cret\"")) ∧
+    Code.loadConfig Grammar.spec [nameBytes "requirepass \"s3cret\""] = .running (some (nameBytes "s3cret")) ∧
+    Code.loadConfig Grammar.pinned [nameBytes "requirepass 'two words'"] = .running (some (nameBytes "'two words'")) := by decide
+
+/-- `_partial`: where the pinned grammar already agrees with the prescribed one — a blank as separator and a plain word as value (one
+    `sdssplitargs` argument that is the text itself: no quotes, no backslash-escapes, no white space), not on a first line with a
+    byte-order mark. -/
+theorem config_pinned_agrees_on_plain_values (v : Bytes) (first : Bool)
+    (h1 : trim (REQUIREPASS ++ 32 :: v) = REQUIREPASS ++ 32 :: v) (h2 : trim v = v)
+    (h3 : splitArgs v = some [v]) (hu : utf8Valid v = true) :
+    Code.parseLine Grammar.pinned first (REQUIREPASS ++ 32 :: v) = .requirepass v ∧
+    Code.parseLine Grammar.spec first (REQUIREPASS ++ 32 :: v) = .requirepass v := by
+  have hs : splitFirstWs (REQUIREPASS ++ 32 :: v) = some (REQUIREPASS, v) := by simp [REQUIREPASS, splitFirstWs, wsLen]
+  have hs' : splitFirstBlank (REQUIREPASS ++ 32 :: v) = some (REQUIREPASS, v) := by simp [REQUIREPASS, splitFirstBlank]
+  have hb : (List.take 3 (REQUIREPASS ++ 32 :: v) == BOM) = false := by simp [REQUIREPASS, BOM]
+  have hl : lowerAscii REQUIREPASS = REQUIREPASS := by decide
+  have ht : lowerAscii (trim REQUIREPASS) = REQUIREPASS := by decide
+  constructor
+  · unfold Code.parseLine Code.prepLine
+    simp only [Grammar.pinned, Bool.false_and, Bool.false_eq_true, if_false, h1]
+    rw [if_neg (by simp [REQUIREPASS])]
+    simp only [hs', ht, h2, if_true]
+  · unfold Code.parseLine Code.prepLine
+    simp only [Grammar.spec, hb, Bool.and_false, Bool.false_eq_true, if_false, h1]
+    rw [if_neg (by simp [REQUIREPASS])]
+    simp only [if_true, hs, hl, h2, h3, hu]
 
 /-- Witness: assigning the command line's `Option` unconditionally wipes a password that only the file gives. -/
 theorem cli_always_rule_wipes_file_password :
